@@ -687,7 +687,7 @@ pub fn build(quick: bool) -> Check {
         bounds: json!({"row_cells_exhaustive": 3, "palette": p}),
         exhaustive: true,
         caps_hit: vec![],
-        families,
-        required: vec!["scalar_values", "dates", "times_of_day", "durations", "strings_beyond_65535", "row_arrangements", "text_recoveries"],
+        families: { let mut f = families; f.push(Box::new(super::aftermath::Aftermath { prop: "C06" })); f },
+        required: vec!["aftermath_recovered", "scalar_values", "dates", "times_of_day", "durations", "strings_beyond_65535", "row_arrangements", "text_recoveries"],
     }
 }
